@@ -273,6 +273,35 @@ def matcher_objects(ctx, pool, rng):
         if last != ans[0] or [m1.match(n) for n in names] != ans or m1.filter(names) != [n for n, a in zip(names, ans) if a]:
             ctx.disagree('a matcher answers differently on its 1000th use', wit)
         built.append((m1, ans, c))
+    # every public flag, alone and next to REALPATH / GLOBSTAR: copies are the same value (==, hash, set membership) as the original
+    from ..common import FLAGN
+    if getattr(ctx, 'shard', 0) == 0:
+        for mod in (F, G):
+            names_ok = [n for n in FLAGN if hasattr(mod, n)]
+            for n1 in names_ok:
+                for extra in ((), ('REALPATH',), ('GLOBSTAR', 'FOLLOW'), ('NEGATE',)):
+                    fl = 0
+                    for n in (n1,) + extra:
+                        fl |= getattr(mod, n, 0)
+                    for pats, kw in (('**/a*', {}), (['*.txt', 'b?'], {'exclude': 'c*'}), (b'**/a*', {})):
+                        try:
+                            m1 = mod.compile(pats, flags=fl, **kw)
+                        except Exception:  # noqa: BLE001
+                            continue
+                        for what, mk in (('pickle', lambda: pickle.loads(pickle.dumps(m1))), ('copy.copy', lambda: copy.copy(m1)),
+                                         ('copy.deepcopy', lambda: copy.deepcopy(m1)),
+                                         ('pickle protocol 2', lambda: pickle.loads(pickle.dumps(m1, protocol=2)))):
+                            ctx.count('matcher_object_checks')
+                            try:
+                                m3 = mk()
+                                ok = m3 == m1 and not (m3 != m1) and hash(m3) == hash(m1) and m3 in {m1}
+                                why = 'not equal / hash-equal to the original'
+                            except Exception as e:  # noqa: BLE001
+                                ok, why = False, 'raised ' + repr(e)[:100]
+                            if not ok:
+                                ctx.disagree(f'{what} of a compiled matcher is not equal or behaves differently',
+                                             {'mode': 'flag-table', 'module': mod.__name__, 'flags': [n1] + list(extra), 'patterns': repr(pats), 'why': why})
+                                break
     # never equal when they accept different names
     for i in range(len(built)):
         for j in range(i + 1, len(built)):
